@@ -6,10 +6,10 @@ from fractions import Fraction as Fr
 from ..fold import fold_value, fold_num
 from ..nf import Rat, C
 from ..source import Unsupported, AnchorError, params
-from ..xlate import Interp, Obj, ListV, DictV, Raised, SumV, Elem
+from ..xlate import Interp, Obj, ListV, DictV, Raised, SumV, Elem, Frame, FuncRef, RankOrder, _RaisedExc
 from .common import same, show, sub, opaque_obj, attached_models, sel_opaque, coeff_vector
-from .rxnfix import reaction, set_public
-from .c01 import mode_instances, getv, MODE_ATTRS, QUANT
+from .rxnfix import reaction, set_public, make_reaction, species as rxn_species
+from .c01 import mode_instances, MODE_ATTRS, QUANT
 
 ENERGY = ('U', 'H', 'F', 'G', 'E')      # value = twin * R * T, unit string extended by /K
 PLAIN = ('Cv', 'Cp', 'S')              # value = twin * R
@@ -43,11 +43,24 @@ def r_units(repo):
 
 
 def atomic_weights(repo):
+    """the table of atomic weights as it stands once pmutt.constants has been imported (a literal, entries added by
+    ``update`` or item assignments afterwards, rows derived from other rows - however the module spells it)"""
+    from .c12 import module_tables
     m = repo.module('pmutt.constants')
-    node = m.assigns.get('atomic_weight', [None])[-1]
-    if not isinstance(node, ast.Dict):
-        raise AnchorError('atomic_weight not found')
-    return {fold_value(m, k): fold_num(m, v).v for k, v in zip(node.keys, node.values)}
+    if 'atomic_weight' not in m.assigns:
+        raise AnchorError('pmutt.constants.atomic_weight not found')
+    return module_tables(repo, m, ['atomic_weight'])['atomic_weight']
+
+
+def molar_mass(aw, elements):
+    """reference: sum of atomic weight times count over a composition given as {symbol: count}"""
+    tot = C(0)
+    for k in elements.d:
+        sym = elements.okey(k)
+        if sym not in aw:
+            raise AnchorError('pmutt.constants.atomic_weight has no entry for %r' % (sym,))
+        tot = tot + C(aw[sym]) * elements.d[k]
+    return tot
 
 
 def rfactor(I, full_units, molweight=None):
@@ -88,25 +101,76 @@ def twin_name(wrapper):
     return 'get_%s%s%s%s' % (m.group(1) or '', q, 'oRT' if q in ENERGY else 'oR', m.group(3) or ''), q
 
 
-def wrappers_of(repo, ci):
+def bound(repo, ci, name, I=None, obj=None):
+    """what ``name`` is bound to in the namespace of the class (through the MRO): (owner class, function node, FuncRef or
+    None).  A def - or a function of the package bound to the name in the class body - is found in the class table; any
+    other binding (``get_S = _make_getter('S')``, a lambda) is evaluated by the interpreter through the fixture object and
+    has to come out as a function of the package: a documented getter that the rule cannot call is not waved through.
+    None when no class along the MRO binds the name."""
+    got = repo.find_method(ci, name, missing_ok=True)      # refuses a def replaced by a value / patched from outside
+    if got is not None:
+        return got[0], got[1], None
+    owner = next((k for k in ci.mro if name in k.class_attrs), None)
+    if owner is None:
+        return None
+    if I is None or obj is None:
+        raise Unsupported('%s.%s is bound in the class body to %s (no fixture to evaluate it through)'
+                          % (owner.qual, name, ast.unparse(owner.class_attrs[name])[:60]))
+    v = Frame(I, owner.module, {}, None, None).obj_attr(obj, name)
+    if not isinstance(v, FuncRef):
+        raise Unsupported('%s.%s is bound in the class body to %s, which is not a function the rule can call (%r)'
+                          % (owner.qual, name, ast.unparse(owner.class_attrs[name])[:60], v))
+    return owner, v.fn, v
+
+
+def getter_names(ci):
+    """every name of the documented getter pattern bound in a class namespace along the MRO - by a def, by an
+    assignment in the class body, or replaced after the class statement"""
     out = []
-    seen = set()
     for k in ci.mro:
-        for name in k.methods:
-            if name in seen:
-                continue
-            tw = twin_name(name)
-            if tw is None:
-                continue
-            seen.add(name)
-            owner, fn = repo.find_method(ci, name)
-            names, _, _, _ = params(fn)
-            if 'units' not in names:
-                continue
-            if repo.find_method(ci, tw[0], missing_ok=True) is None:
-                continue
-            out.append((name, tw[0], tw[1], owner, fn))
-    return sorted(out)
+        for name in list(k.methods) + list(k.class_attrs) + sorted(k.rebound):
+            if name not in out and twin_name(name) is not None:
+                out.append(name)
+    return out
+
+
+def wrappers_of(repo, ci, I=None, obj=None):
+    out = []
+    for name in getter_names(ci):
+        tw = twin_name(name)
+        got = bound(repo, ci, name, I, obj)
+        if got is None:
+            continue
+        owner, fn, _ = got
+        names, _, _, _ = params(fn)
+        if 'units' not in names:
+            continue
+        if bound(repo, ci, tw[0], I, obj) is None:
+            continue
+        out.append((name, tw[0], tw[1], owner, fn))
+    return sorted(out, key=lambda x: x[:3])
+
+
+def getv(I, obj, mname, avail):
+    """(value,) of obj.mname(...) handing over only the parameters it expects (the contract of
+    pmutt._pass_expected_arguments, which is how the package calls its models); a getter that is not a def in the class
+    table is called as the function it is, with the object in first place"""
+    if mname in obj.opaque_methods:
+        ps = obj.opaque_params.get(mname, ())
+        return (obj.opaque_methods[mname](I, obj, [], {k: v for k, v in avail.items() if k in ps}),)
+    got = bound(I.repo, obj.ci, mname, I, obj)
+    if got is None:
+        raise AnchorError('method %s not found in MRO of %s' % (mname, obj.ci.qual))
+    owner, fn, ref = got
+    names, _, _, kwarg = params(fn)
+    kw = dict(avail) if kwarg else {k: v for k, v in avail.items() if k in names}
+    if ref is None:
+        return (I.call_method(obj, mname, [], kw),)
+    plain = FuncRef(ref.module, ref.fn, None, ref.owner, ref.closure, ref.defaults, ref.frame_self)
+    try:
+        return (Frame(I, owner.module, {}, None, None).apply(plain, [obj], kw),)
+    except _RaisedExc as e:
+        return (e.raised,)
 
 
 def bool_options(fn):
@@ -152,9 +216,12 @@ def sel_label(sel):
     return '' if sel is None else '[S_elements]' if sel else '[S_elements=False]'
 
 
-def run_pair(run, I, obj, label, wname, tname, q, owner, fn, avail, units_list, molweight, counter, warns=False):
+def run_pair(run, I, obj, label, wname, tname, q, owner, fn, avail, units_list, molweight, counter, warns=False,
+             undefined_too=False):
     """one finding per (class, wrapper): the unit strings and option variants that fail are listed in the text.
-    warns: the two forms must also issue the same number of warnings (an option that silences them acts on both)"""
+    warns: the two forms must also issue the same number of warnings (an option that silences them acts on both);
+    undefined_too: where the dimensionless form refuses the conditions (no polynomial for this temperature), the form
+    with units has no value to hand out either"""
     D = I.D
     T = avail.get('T')
     cls_label = label.split('[')[0]
@@ -174,7 +241,13 @@ def run_pair(run, I, obj, label, wname, tname, q, owner, fn, avail, units_list, 
         rf = rfactor(I, u, molweight)
         counter[0] += 1
         if isinstance(t, Raised):
-            continue            # the dimensionless form is not defined under these conditions either
+            # the dimensionless form is not defined under these conditions
+            if undefined_too:
+                run.check(isinstance(w, Raised), 'FWD.defined', construct, 'defined',
+                          '%s(units=%r)%s returns %s although %s raises %s under the same conditions: there is no '
+                          'dimensionless value it could be R (T) times of' % (wname, uarg, variant, show(w, 120), tname,
+                                                                             t.exc), owner.module, fn)
+            continue
         decided += 1
         if isinstance(w, Raised):
             run.fail('FWD.raises', construct, 'raises:' + w.exc,
@@ -231,6 +304,36 @@ def pressure_default(*objs):
                 o.opaque_methods[mname] = wrap(h)
 
 
+def array_answers(*objs):
+    """the stubs that stand for species and modes answer an array of temperatures like the real ones: element by
+    element, one value per temperature (each an atom named by its own temperature and the other arguments)"""
+    def wrap(h):
+        def g(I_, obj, args, kwargs):
+            T = kwargs.get('T')
+            if isinstance(T, ListV):
+                out = ListV([h(I_, obj, args, dict(kwargs, T=t)) for t in T.items])
+                out.is_array = True
+                return out
+            return h(I_, obj, args, kwargs)
+        g.array_answers = True
+        g.pressure_default = getattr(h, 'pressure_default', False)
+        return g
+    for o in objs:
+        for mname, h in list(o.opaque_methods.items()):
+            if 'T' in o.opaque_params.get(mname, ()) and not getattr(h, 'array_answers', False):
+                o.opaque_methods[mname] = wrap(h)
+
+
+def twin_evaluates(I, obj, tname, avail):
+    """can the dimensionless form be evaluated at all under these conditions?  (An array of temperatures handed to a
+    form that takes a maximum over numbers is outside what numpy - and the interpreter - define.)"""
+    try:
+        getv(I, obj, tname, avail)
+    except Unsupported:
+        return False
+    return True
+
+
 def bare_model(I, name):
     """a user-defined mode / mixing model that has none of the thermodynamic getters (like a model that only shifts
     one quantity, taken to the extreme): what it contributes is the documented default, under raise_error=False"""
@@ -277,10 +380,70 @@ def ctor_options(repo, ci, D):
     return out
 
 
+def composition(I, obj):
+    """``obj.elements`` as the object itself answers (instance attribute, property, class attribute); None when it has no
+    such attribute or the attribute is None"""
+    if not obj.closed:
+        raise Unsupported('the fixture %s was not built by its constructor: what attributes it has is open' % obj.name)
+    try:
+        return Frame(I, obj.ci.module, {}, None, None).obj_attr(obj, 'elements')
+    except _RaisedExc as e:
+        if e.raised.exc != 'AttributeError':
+            raise Unsupported('reading elements of %s raises %s' % (obj.name, e.raised.exc))
+        return None
+
+
+def further_models(I, repo, comp):
+    """(label, object, arguments) for the model classes that are neither a mode of StatMech nor an attached model, each
+    built by its own constructor from the documented parameters: a mode with freely chosen values, one NASA-9
+    interval, a reference species and a Zacros species (both with and without a composition)"""
+    D = I.D
+    base = {'T': D.sym('T'), 'P': D.sym('P')}
+    out = []
+
+    def make(label, qual, **kw):
+        o = I.construct(repo.cls(qual), [], kw, name='self')
+        if isinstance(o, Raised):
+            raise Unsupported('%s(%s) raises %s for generic parameters' % (qual, ', '.join(sorted(kw)), o.exc))
+        out.append((label, o, base))
+    make('ConstantMode', 'pmutt.statmech.ConstantMode',
+         **{k: D.sym('self.' + k) for k in ('q', 'Cv', 'Cp', 'U', 'H', 'S', 'F', 'G')})
+    make('SingleNasa9', 'pmutt.empirical.nasa.SingleNasa9', T_low=D.sym('seg.T_low'), T_high=D.sym('seg.T_high'),
+         a=coeff_vector(I, 's', 9))
+    for tag, el in (('', None), ('[elements]', comp())):
+        make('Reference' + tag, 'pmutt.empirical.references.Reference', name='ref', T_ref=D.sym('self.T_ref'),
+             HoRT_ref=D.sym('self.HoRT_ref'), elements=el)
+        # an adsorbed atom: no vibrations, no rotation
+        make('Zacros' + tag, 'pmutt.empirical.zacros.Zacros', name='z', phase='S', vib_wavenumbers=ListV([]),
+             potentialenergy=D.sym('self.potentialenergy'), elements=el)
+    return out
+
+
+def uncovered(repo, covered, ran):
+    """classes of the package that offer a getter of the documented pattern with a ``units`` parameter (or bind such a
+    name to something that is not a def) and were not asked: neither through a fixture of their own nor - a base
+    class - through fixtures of subclasses that reach every getter the class binds"""
+    out = []
+    for ci in sorted(repo.all_classes(), key=lambda k: k.qual):
+        own = []
+        for name in getter_names(ci):
+            k = next(k_ for k_ in ci.mro if name in k_.methods or name in k_.class_attrs or name in k_.rebound)
+            fn = k.methods.get(name)
+            if fn is None or 'units' in params(fn)[0]:
+                own.append((k, name))
+        if not own or ci.qual in covered:
+            continue
+        subs = [k for k in repo.subclasses(ci, strict=True) if k.qual in covered]
+        if subs and all((k.qual, name) in ran for k, name in own if k is ci):
+            continue
+        out.append(ci.qual)
+    return out
+
+
 def check(run, repo):
     run.explanation = (
         'Every dimensional getter (get_Cv/Cp/U/H/S/F/G/E and the reaction state/delta/activation forms), enumerated '
-        'from the class table through the MRO for every mode class, StatMech, Nasa, Nasa9, Shomate, Reaction, '
+        'from the class namespaces through the MRO for every model class, StatMech, Nasa, Nasa9, Shomate, Reaction, '
         'ChemkinReaction, SurfaceReaction and BEP, is interpreted abstractly together with its dimensionless twin '
         'under the same symbolic T, P and options. Decided as an identity for each supported unit string (molar, '
         'per-molecule, per-mass): wrapper == twin * R(units) (* T for energies, with the unit string extended by /K), '
@@ -298,66 +461,113 @@ def check(run, repo):
         'with nothing but T given (defaults of the wrapper against what the twin does when nothing is said; stubs '
         'answer a call without P like a call with P = 1 bar, the documented default). Reactions also built with '
         'every optional constructor argument given (Ea, A, beta, sticking coefficient, id, direction, notes; '
-        'switches as they are and flipped): a getter with units stays twin * R (T) whatever was given.')
+        'switches as they are and flipped): a getter with units stays twin * R (T) whatever was given. '
+        'Round 3: the getters are every name of the documented pattern bound in a class namespace (defs, names bound '
+        'in the class body to a function made by a factory or to a lambda - evaluated by the interpreter), with '
+        'per-class counts as floors; every class of the package that offers such a getter must have been asked '
+        '(ConstantMode, SingleNasa9, Reference, Zacros, LSR, ExtendedLSR, PiecewiseCovEffect, References, both BEP '
+        'classes next to the modes) or the check refuses; whether an object has a composition is asked of the '
+        'object; the atomic weights are the table as the module leaves it, and pmutt.get_molecular_weight is compared '
+        'with it; reactions whose transition state is a BEP relation (every activation form, both directions); '
+        'reactions asked with an array of temperatures (species answer element by element); NASA/Shomate species '
+        'asked below T_low, above T_mid and above T_high (scalar, and arrays reaching across a bound) - same value '
+        'times R (T), same warnings, and no value where the dimensionless form refuses the temperature.')
     run.assumptions = ['unit model of pmutt.constants verified by C12', 'species and mix getters are arbitrary '
                        'functions of the arguments they receive']
-    run.undecided = ['numeric values; array-valued T beyond what C02/C13 decide']
+    run.undecided = ['numeric values; array-valued T beyond what C02/C13 decide',
+                     'clamped activation forms (maximum over a list of numbers) asked with an array of temperatures: '
+                     'the dimensionless form is not defined there',
+                     'single modes asked with an array of temperatures']
     thorough = run.tier == 'thorough'
     rkeys = r_units(repo)
     run.floor('R table keys', len(rkeys), 16)
     aw = atomic_weights(repo)
+    # the molar mass of a composition as the package computes it, against the table as the module leaves it. (A
+    # look-up that fails although the table has the entry means that the interpreter does not see the table the way
+    # an import leaves it: nothing per mass can be decided then.)
+    I = Interp(repo)
+    pm = repo.module('pmutt')
+    if 'get_molecular_weight' not in pm.functions:
+        raise AnchorError('pmutt.get_molecular_weight not found')
+    el_ = DictV({'H': I.D.sym('nH'), 'O': I.D.sym('nO')})
+    got_mw = I.call_function(pm, pm.functions['get_molecular_weight'], [], {'elements': el_},
+                             name='pmutt.get_molecular_weight')
+    if isinstance(got_mw, Raised) and got_mw.exc == 'KeyError':
+        raise Unsupported('pmutt.get_molecular_weight raises KeyError inside the analysis for elements that '
+                          'pmutt.constants.atomic_weight holds once the module body has run')
+    run.check(same(got_mw, molar_mass(aw, el_)), 'REF.molweight', 'pmutt.get_molecular_weight', 'molar mass',
+              'the molar mass of {H: nH, O: nO} is not the sum of atomic weight times count: got %s, expected %s'
+              % (show(got_mw, 160), show(molar_mass(aw, el_), 160)), pm, pm.functions['get_molecular_weight'])
     counter = [0]
     n_wrappers = 0
+    covered = set()         # classes a fixture of which was asked
+    ran = set()             # (class that binds the getter, getter) that were asked
 
-    # ---- (a) mode classes: the seven _ModelBase wrappers ------------------
-    I = Interp(repo)
+    def wrappers(I_, obj_, label_=None, floor_=None):
+        """the dimensional getters of the fixture's class, each next to its twin; noted as run"""
+        ws = wrappers_of(repo, obj_.ci, I_, obj_)
+        covered.add(obj_.ci.qual)
+        ran.update((w_[3].qual, w_[0]) for w_ in ws)
+        if floor_ is not None:
+            # a getter of the documented interface that is no longer offered (or no longer next to its twin) is never
+            # a refactoring: the counts are those of the interface, without slack
+            run.floor('dimensional getters of %s' % label_, len(ws), floor_)
+        return ws
+
+    # ---- (a) model classes that use the seven _ModelBase wrappers as they are (or replace some of them) -----------
+    I = Interp(repo, order=RankOrder({'x': 1, 'b1': 2}, const_ranks=True))    # a coverage inside the first interval
     D = I.D
     nH, nO = D.sym('nH'), D.sym('nO')
-    molw = C(aw['H']) * nH + C(aw['O']) * nO
+    comp = lambda: DictV({'H': nH, 'O': nO})
+    molw = molar_mass(aw, comp())
     nomass_seen = set()
-    for label, obj, avail, hu, closed in mode_instances(I, repo):
-        if label in ('BEP', 'References', 'PiecewiseCovEffect', 'LSR', 'ExtendedLSR'):
-            continue
-        has_el = assigns_attr(repo, obj.ci, 'elements')
-        if has_el:
-            set_public(I, obj, 'elements', DictV({'H': nH, 'O': nO}))
-        else:
-            obj.missing.add('elements')
-        for wname, tname, q, owner, fn in wrappers_of(repo, obj.ci):
+    fixtures = [(label, obj, avail) for label, obj, avail, hu, closed in mode_instances(I, repo) if label != 'BEP']
+    fixtures += further_models(I, repo, comp)
+    for label, obj, avail in fixtures:
+        # does the object have a composition? The object is asked (instance attribute, property, class attribute),
+        # not the text of its constructor; "no such attribute" and None both mean it has none
+        el = composition(I, obj)
+        mw = None
+        if el is not None:
+            if not isinstance(el, DictV):
+                raise Unsupported('composition of the model object %s is %r' % (label, el))
+            mw = molar_mass(aw, el)
+        for wname, tname, q, owner, fn in wrappers(I, obj, label, 7):
             n_wrappers += 1
             run.fn('%s.%s' % (owner.qual, wname))
             run_pair(run, I, obj, label, wname, tname, q, owner, fn, avail,
-                     unit_variants(rkeys, thorough, per_mass=has_el), molw if has_el else None, counter)
+                     unit_variants(rkeys, thorough, per_mass=mw is not None), mw, counter)
             # no composition: per-mass units are refused (once per wrapper definition, by an object that was built by
-            # its own constructor - it has exactly the attributes its class assigns, and ``elements`` is not one)
-            if not has_el and obj.closed and (owner.qual, wname) not in nomass_seen:
+            # its own constructor - it has exactly the attributes its class gives it)
+            if mw is None and obj.closed and (owner.qual, wname) not in nomass_seen:
                 nomass_seen.add((owner.qual, wname))
                 run_nomass(run, I, obj, label + '[no elements]', wname, tname, q, owner, fn, avail, counter)
     # a species-like object that inherits all seven wrappers of the base class and does carry a composition: a BEP
-    # relation standing for a transition state, built by its constructor. (Its activation form is a reaction form,
-    # molar only, section (e).)
+    # relation standing for a transition state, built by its constructor - the class of pmutt.reaction and the one
+    # OpenMKM input is written from. (Its activation form is a reaction form, molar only, section (e).)
     rx = opaque_obj(I, 'rxn', {k: ('T', 'units', 'rev', 'state', 'P') for k in
                                ('get_delta_E', 'get_delta_H', 'get_H_state', 'get_E_state', 'get_UoRT_state',
                                 'get_HoRT_state', 'get_SoR_state')})
     rx.isa.add('Reaction')
-    for el, mw, tag in ((DictV({'H': nH, 'O': nO}), molw, 'elements'), (None, None, 'no elements')):
-        bep = I.construct(repo.cls('pmutt.reaction.bep.BEP'), [],
-                          {'slope': D.sym('slope'), 'intercept': D.sym('intercept'), 'descriptor': 'delta_H',
-                           'elements': el}, name='bep')
-        if isinstance(bep, Raised):
-            raise Unsupported('BEP(...) raised %s' % bep.exc)
-        n_bep = 0
-        for wname, tname, q, owner, fn in wrappers_of(repo, bep.ci):
-            if wname.endswith('_act'):
-                continue
-            n_bep += 1
-            avail = {'T': D.sym('T'), 'P': D.sym('P'), 'reaction': rx}
-            if el is not None:
-                run_pair(run, I, bep, 'BEP[%s]' % tag, wname, tname, q, owner, fn, avail,
-                         ['J/mol/K', 'J/g/K', 'kJ/kg/K'], mw, counter)
-            else:
-                run_nomass(run, I, bep, 'BEP[%s]' % tag, wname, tname, q, owner, fn, avail, counter)
-        run.floor('wrappers of a BEP relation with %s' % tag, n_bep, 7)
+    for bq, btag in (('pmutt.reaction.bep.BEP', 'BEP'), ('pmutt.omkm.reaction.BEP', 'omkm.BEP')):
+        for el, mw, tag in ((comp(), molw, 'elements'), (None, None, 'no elements')):
+            bep = I.construct(repo.cls(bq), [],
+                              {'slope': D.sym('slope'), 'intercept': D.sym('intercept'), 'descriptor': 'delta_H',
+                               'elements': el}, name='bep')
+            if isinstance(bep, Raised):
+                raise Unsupported('BEP(...) raised %s' % bep.exc)
+            n_bep = 0
+            for wname, tname, q, owner, fn in wrappers(I, bep, btag, 8):
+                if wname.endswith('_act'):
+                    continue
+                n_bep += 1
+                avail = {'T': D.sym('T'), 'P': D.sym('P'), 'reaction': rx}
+                if el is not None:
+                    run_pair(run, I, bep, '%s[%s]' % (btag, tag), wname, tname, q, owner, fn, avail,
+                             ['J/mol/K', 'J/g/K', 'kJ/kg/K'], mw, counter)
+                else:
+                    run_nomass(run, I, bep, '%s[%s]' % (btag, tag), wname, tname, q, owner, fn, avail, counter)
+            run.floor('wrappers of a BEP relation (%s) with %s' % (btag, tag), n_bep, 7)
 
     # ---- (b) StatMech ---------------------------------------------------------
     ci = repo.cls('pmutt.statmech.StatMech')
@@ -365,23 +575,26 @@ def check(run, repo):
     I = Interp(repo)
     D = I.D
     nH, nO = D.sym('nH'), D.sym('nO')
-    molw = C(aw['H']) * nH + C(aw['O']) * nO
+    molw = molar_mass(aw, DictV({'H': nH, 'O': nO}))
     attrs = {a: opaque_obj(I, a, {m: ('T', 'P') for m in methods}) for a in MODE_ATTRS}
     pressure_default(*attrs.values())
     attrs.update({'name': 'sp', 'references': None, 'misc_models': None})
 
     def species(elements, **over):
-        # the composition goes in the way a user sets it (through the property, should the class have one)
-        o = Obj('sp', ci, attrs=dict(attrs, **over))
-        set_public(I, o, 'elements', elements)
+        # built by the constructor from the documented arguments: what it keeps, and under which names, is its own
+        # business (an attribute it does not set does not exist)
+        o = I.construct(ci, [], dict(attrs, elements=elements, **over), name='sp')
+        if isinstance(o, Raised):
+            raise Unsupported('StatMech(...) raised %s for the model species' % o.exc)
         sel_opaque(o)
         return o
     sp = species(DictV({'H': nH, 'O': nO}))
+    ws = wrappers(I, sp, 'StatMech', 8)
     # the entropy-of-elements switch is a boolean whose default is None: left out, switched on and switched off
     # explicitly (False is not None - a wrapper that hands on "was it given" instead of the value shows here)
     for sel in (None, True, False):
         avail = {'T': D.sym('T'), 'P': D.sym('P'), 'S_elements': sel, 'include_ZPE': True}
-        for wname, tname, q, owner, fn in wrappers_of(repo, ci):
+        for wname, tname, q, owner, fn in ws:
             if sel is None:
                 n_wrappers += 1
                 run.fn('%s.%s' % (owner.qual, wname))
@@ -395,14 +608,14 @@ def check(run, repo):
     # session: per-mass values must use its own molar mass (nothing may be remembered from the previous species)
     mH, mO = D.sym('mH'), D.sym('mO')
     sp_b = species(DictV({'H': mH, 'O': mO}))
-    molw_b = C(aw['H']) * mH + C(aw['O']) * mO
-    for wname, tname, q, owner, fn in wrappers_of(repo, ci):
+    molw_b = molar_mass(aw, DictV({'H': mH, 'O': mO}))
+    for wname, tname, q, owner, fn in ws:
         av = {'T': D.sym('T'), 'P': D.sym('P')}
         run_pair(run, I, sp_b, 'StatMech[second species, same elements]', wname, tname, q, owner, fn, av,
                  ['J/g/K'], molw_b, counter)
     # the same species without a composition (``elements`` is None, the constructor's default)
     sp_0 = species(None)
-    for wname, tname, q, owner, fn in wrappers_of(repo, ci):
+    for wname, tname, q, owner, fn in ws:
         run_nomass(run, I, sp_0, 'StatMech[elements=None]', wname, tname, q, owner, fn,
                    {'T': D.sym('T'), 'P': D.sym('P')}, counter)
     # the same species with references attached: every boolean option the wrapper shares with its twin is flipped,
@@ -411,8 +624,8 @@ def check(run, repo):
     refs.attrs['descriptor'] = 'elements'
     sp_ref = species(DictV({'H': nH, 'O': nO}), references=refs)
     n_flips = 0
-    for wname, tname, q, owner, fn in wrappers_of(repo, ci):
-        tfn = repo.find_method(ci, tname)[1]
+    for wname, tname, q, owner, fn in ws:
+        tfn = bound(repo, ci, tname, I, sp)[1]
         for opt, dflt in bool_options(fn):
             if opt not in params(tfn)[0]:
                 continue
@@ -426,8 +639,8 @@ def check(run, repo):
     # switch has anything to act on
     sp_bare = species(DictV({'H': nH, 'O': nO}), nucl_model=bare_model(I, 'bare'))
     n_sil = 0
-    for wname, tname, q, owner, fn in wrappers_of(repo, ci):
-        tfn = repo.find_method(ci, tname)[1]
+    for wname, tname, q, owner, fn in ws:
+        tfn = bound(repo, ci, tname, I, sp)[1]
         for var in SILENCE:
             if not all(o in params(fn)[0] and o in params(tfn)[0] for o in var):
                 continue
@@ -437,60 +650,74 @@ def check(run, repo):
     run.floor('StatMech wrappers with a mode that lacks the getter', n_sil, 16)
     # temperature only: every option the wrapper has a default for is left out on both forms (the pressure too - the
     # modes then use their own, 1 bar), so a default of the wrapper that differs from its twin's shows
-    for wname, tname, q, owner, fn in wrappers_of(repo, ci):
+    for wname, tname, q, owner, fn in ws:
         run_pair(run, I, sp, 'StatMech[options left out]', wname, tname, q, owner, fn, {'T': D.sym('T')},
                  ['J/mol/K'], molw, counter)
 
+    # an array of temperatures (the modes answer element by element): element by element the same relation, each
+    # energy times its own temperature, per mole and per mass
+    array_answers(*[attrs[a] for a in MODE_ATTRS])
+    arrT = ListV([D.sym('T0'), D.sym('T1')])
+    arrT.is_array = True
+    n_arr_sm = 0
+    for wname, tname, q, owner, fn in ws:
+        av = {'T': arrT, 'P': D.sym('P')}
+        if not twin_evaluates(I, sp, tname, av):
+            continue
+        n_arr_sm += run_pair(run, I, sp, 'StatMech[array T]', wname, tname, q, owner, fn, av, ['J/mol/K', 'kJ/kg/K'],
+                             molw, counter)
+    run.floor('StatMech wrappers asked with an array of temperatures', n_arr_sm, 16)
+
     # ---- (c) empirical species --------------------------------------------------
+    n_out = 0
     for cname, qual in (('Nasa', 'pmutt.empirical.nasa.Nasa'), ('Nasa9', 'pmutt.empirical.nasa.Nasa9'),
                         ('Shomate', 'pmutt.empirical.shomate.Shomate')):
         ci = repo.cls(qual)
-        from ..xlate import RankOrder
         I = Interp(repo, order=RankOrder({'sp.T_low': 1, 'sp.T_mid': 5, 'sp.T_high': 9, 'T': 3,
                                                         'seg0.T_low': 1, 'seg0.T_high': 9}))
         D = I.D
         nH, nO = D.sym('nH'), D.sym('nO')
-        molw = C(aw['H']) * nH + C(aw['O']) * nO
+        molw = molar_mass(aw, DictV({'H': nH, 'O': nO}))
         models = attached_models(I, 1)
         pressure_default(*models.items)
+        # built by the constructors from the documented arguments (ranked symbols for the temperature bounds); what
+        # a class keeps behind properties or private names is its own business
         attrs = {'name': 'sp', 'misc_models': models}
-        post = []
-        # the temperature bounds go in through the public names as well (ranked symbols; a class may keep them behind
-        # properties)
         if cname == 'Nasa':
             attrs.update({'a_low': coeff_vector(I, 'lo', 7), 'a_high': coeff_vector(I, 'hi', 7)})
-            post = [(k_, D.sym('sp.' + k_)) for k_ in ('T_low', 'T_mid', 'T_high')]
+            attrs.update({k_: D.sym('sp.' + k_) for k_ in ('T_low', 'T_mid', 'T_high')})
         elif cname == 'Nasa9':
-            seg = Obj('seg0', repo.cls('pmutt.empirical.nasa.SingleNasa9'), attrs={'a': coeff_vector(I, 's', 9)})
-            for k_ in ('T_low', 'T_high'):
-                set_public(I, seg, k_, D.sym('seg0.' + k_))
-            post = [('nasas', ListV([seg]))]
+            seg = I.construct(repo.cls('pmutt.empirical.nasa.SingleNasa9'), [],
+                              {'T_low': D.sym('seg0.T_low'), 'T_high': D.sym('seg0.T_high'),
+                               'a': coeff_vector(I, 's', 9)}, name='seg0')
+            if isinstance(seg, Raised):
+                raise Unsupported('SingleNasa9(...) raised %s' % seg.exc)
+            attrs['nasas'] = ListV([seg])
         else:
-            attrs.update({'a': coeff_vector(I, 'a', 8)})
-            post = [('units', D.sym('units'))] + [(k_, D.sym('sp.' + k_)) for k_ in ('T_low', 'T_high')]
+            attrs.update({'a': coeff_vector(I, 'a', 8), 'units': D.sym('units')})
+            attrs.update({k_: D.sym('sp.' + k_) for k_ in ('T_low', 'T_high')})
 
         def species(elements, **over):
-            # what the class keeps behind a property goes in through the property (composition, segments, own unit)
-            o = Obj('sp', ci, attrs=dict(attrs, **{k: v for k, v in over.items() if k != 'units'}))
-            for k, v in post:
-                set_public(I, o, k, over.get(k, v))
-            set_public(I, o, 'elements', elements)
+            o = I.construct(ci, [], dict(attrs, elements=elements, **over), name='sp')
+            if isinstance(o, Raised):
+                raise Unsupported('%s(...) raised %s for the model species' % (cname, o.exc))
             sel_opaque(o)
             return o
         # a Shomate polynomial is stored in a unit of its own (J/mol/K, the default, or kJ/mol/K): each asked for its
         # values in its own unit, in the other one and per mass - asking in the stored unit is not a special case
+        sp = species(DictV({'H': nH, 'O': nO}))
+        ws = wrappers(I, sp, cname, 7)
         if cname == 'Shomate':
             for own in ('J/mol/K', 'kJ/mol/K'):
                 sp_u = species(DictV({'H': nH, 'O': nO}), units=own)
                 for sel in (None, True):
                     avail = {'T': D.sym('T'), 'P': D.sym('P'), 'S_elements': sel}
-                    for wname, tname, q, owner, fn in wrappers_of(repo, ci):
+                    for wname, tname, q, owner, fn in ws:
                         run_pair(run, I, sp_u, '%s[units=%s]%s' % (cname, own, sel_label(sel)), wname, tname, q, owner,
                                  fn, avail, ['J/mol/K', 'kJ/mol/K'] + (['J/g/K'] if sel is None else []), molw, counter)
-        sp = species(DictV({'H': nH, 'O': nO}))
         for sel in (None, True, False):
             avail = {'T': D.sym('T'), 'P': D.sym('P'), 'S_elements': sel}
-            for wname, tname, q, owner, fn in wrappers_of(repo, ci):
+            for wname, tname, q, owner, fn in ws:
                 if sel is None:
                     n_wrappers += 1
                     run.fn('%s.%s' % (owner.qual, wname))
@@ -501,7 +728,7 @@ def check(run, repo):
                          molw, counter)
         # the same species without a composition (``elements`` is None, the constructor's default)
         sp_0 = species(None)
-        for wname, tname, q, owner, fn in wrappers_of(repo, ci):
+        for wname, tname, q, owner, fn in ws:
             run_nomass(run, I, sp_0, cname + '[elements=None]', wname, tname, q, owner, fn,
                        {'T': D.sym('T'), 'P': D.sym('P'), 'S_elements': None}, counter)
         # an array of temperatures: element by element the same relation (T multiplies its own element)
@@ -509,22 +736,38 @@ def check(run, repo):
         ranks_.update({'T0': 3, 'T1': 4})
         arrT = ListV([D.sym('T0'), D.sym('T1')])
         arrT.is_array = True
-        for wname, tname, q, owner, fn in wrappers_of(repo, ci):
+        for wname, tname, q, owner, fn in ws:
             run_pair(run, I, sp, cname + '[array T]', wname, tname, q, owner, fn,
                      {'T': arrT, 'P': D.sym('P'), 'S_elements': None}, ['J/mol/K', 'kJ/kg/K'], molw, counter)
+        # temperatures outside the range the polynomials were fitted to, and in its upper half: the dimensionless forms
+        # extrapolate (with a warning where the class issues one), and so do the forms with units - the same value
+        # times R (T), the same number of warnings. Scalars, and an array that reaches from below the range into it
+        ranks_.update({'T<low': 0, 'T>mid': 7, 'T>high': 11})
+        for tag in ('T<low', 'T>mid', 'T>high'):
+            for wname, tname, q, owner, fn in ws:
+                n_out += run_pair(run, I, sp, '%s[%s]' % (cname, tag), wname, tname, q, owner, fn,
+                                  {'T': D.sym(tag), 'P': D.sym('P')}, ['J/mol/K'], molw, counter, warns=True,
+                                  undefined_too=True)
+        for tag, pair in (('T<low,T', ('T<low', 'T0')), ('T,T>high', ('T1', 'T>high'))):
+            arrO = ListV([D.sym(pair[0]), D.sym(pair[1])])
+            arrO.is_array = True
+            for wname, tname, q, owner, fn in ws:
+                n_out += run_pair(run, I, sp, '%s[array %s]' % (cname, tag), wname, tname, q, owner, fn,
+                                  {'T': arrO, 'P': D.sym('P')}, ['J/mol/K'], molw, counter, warns=True,
+                                  undefined_too=True)
         # a second species with the same element symbols but other counts, after the first in the same session
         mH, mO = D.sym('mH'), D.sym('mO')
         sp_b = species(DictV({'H': mH, 'O': mO}))
-        for wname, tname, q, owner, fn in wrappers_of(repo, ci):
+        for wname, tname, q, owner, fn in ws:
             run_pair(run, I, sp_b, cname + '[second species, same elements]', wname, tname, q, owner, fn,
-                     {'T': D.sym('T'), 'P': D.sym('P')}, ['J/g/K'], C(aw['H']) * mH + C(aw['O']) * mO, counter)
+                     {'T': D.sym('T'), 'P': D.sym('P')}, ['J/g/K'], molar_mass(aw, DictV({'H': mH, 'O': mO})), counter)
         # a second attached model that lacks the getters (a user-defined model that shifts one quantity only, taken to
         # the extreme): the switch that turns the error into a warning and the one that turns the warning into nothing
         # act on both forms - with complete models neither switch has anything to act on
         sp_bare = species(DictV({'H': nH, 'O': nO}), misc_models=ListV(list(models.items) + [bare_model(I, 'bare')]))
         n_sil = 0
-        for wname, tname, q, owner, fn in wrappers_of(repo, ci):
-            tfn = repo.find_method(ci, tname)[1]
+        for wname, tname, q, owner, fn in ws:
+            tfn = bound(repo, ci, tname, I, sp)[1]
             for var in SILENCE:
                 if not all(o in params(fn)[0] and o in params(tfn)[0] for o in var):
                     continue
@@ -534,12 +777,13 @@ def check(run, repo):
                                   counter, warns=True)
         run.floor('%s wrappers with an attached model that lacks the getter' % cname, n_sil, 8)
         # temperature only: every option the wrapper has a default for is left out on both forms
-        for wname, tname, q, owner, fn in wrappers_of(repo, ci):
+        for wname, tname, q, owner, fn in ws:
             run_pair(run, I, sp, cname + '[options left out]', wname, tname, q, owner, fn, {'T': D.sym('T')},
                      ['J/mol/K'], molw, counter)
 
+    run.floor('empirical wrappers asked outside the fitted range', n_out, 85)
     # ---- (d) reactions ------------------------------------------------------------
-    n_numopts = n_nots = n_given = n_left = 0
+    n_numopts = n_nots = n_given = n_left = n_bepts = n_arr = 0
     for cname, qual in (('Reaction', 'pmutt.reaction.Reaction'), ('ChemkinReaction', 'pmutt.reaction.ChemkinReaction'),
                         ('SurfaceReaction', 'pmutt.omkm.reaction.SurfaceReaction')):
         ci = repo.cls(qual)
@@ -547,7 +791,8 @@ def check(run, repo):
         D = I.D
         rxn, rs, ps, ts = reaction(I, repo, qual)
         pressure_default(*(rs + ps + ts))
-        for wname, tname, q, owner, fn in wrappers_of(repo, ci):
+        ws = wrappers(I, rxn, cname, 24)
+        for wname, tname, q, owner, fn in ws:
             n_wrappers += 1
             run.fn('%s.%s' % (owner.qual, wname))
             names = params(fn)[0]
@@ -561,7 +806,7 @@ def check(run, repo):
                     variants = [dict(v, act=a) for v in variants for a in (False, True)]
             # every numeric option the wrapper shares with its twin is also given a value that is not its default (a
             # symbol): an option that is not handed on leaves the twin at its default and the two forms differ
-            tfn = repo.find_method(ci, tname)[1]
+            tfn = bound(repo, ci, tname, I, rxn)[1]
             for opt in numeric_options(fn):
                 if opt in params(tfn)[0] and opt not in ('T', 'P'):
                     n_numopts += 1
@@ -583,7 +828,7 @@ def check(run, repo):
         # the barrier a meaning of their own there): activation forms and the act option, forward and reverse
         rxn0, rs0, ps0, _ = reaction(I, repo, qual, nts=0, name='rxn0')
         pressure_default(*(rs0 + ps0))
-        for wname, tname, q, owner, fn in wrappers_of(repo, ci):
+        for wname, tname, q, owner, fn in ws:
             names = params(fn)[0]
             if not (wname.endswith('_act') or 'act' in names):
                 continue
@@ -600,7 +845,7 @@ def check(run, repo):
         # temperature only: every option the wrapper has a default for (P, rev, act, include_ZPE, del_m ...) is left out
         # on both forms - the species then use their own pressure, 1 bar -, so a default of the wrapper that differs
         # from what its twin does when nothing is said shows. With and, for the barriers, without a transition state.
-        for wname, tname, q, owner, fn in wrappers_of(repo, ci):
+        for wname, tname, q, owner, fn in ws:
             names = params(fn)[0]
             variants = [{'state': 'reactants'}, {'state': 'TS'}] if 'state' in names else [{}]
             for r_, tag in ((rxn, ''), (rxn0, 'no transition state,')):
@@ -630,7 +875,7 @@ def check(run, repo):
             rxu, rsu, psu, tsu = reaction(I, repo, qual, ctor=kw_)
             pressure_default(*(rsu + psu + tsu))
             n_given += 1
-            for wname, tname, q, owner, fn in wrappers_of(repo, ci):
+            for wname, tname, q, owner, fn in ws:
                 names = params(fn)[0]
                 if not thorough and i_ >= n_plain and not wname.endswith('_act'):
                     continue        # quick: the flipped switches (adsorption ...) through the barriers only
@@ -641,24 +886,86 @@ def check(run, repo):
                     avail = dict({'T': D.sym('T'), 'P': D.sym('P'), 'include_ZPE': True}, **var)
                     lab = '%s[%s%s]' % (cname, tag, ''.join(',%s=%s' % kv for kv in sorted(var.items())))
                     run_pair(run, I, rxu, lab, wname, tname, q, owner, fn, avail, ['kcal/mol/K'], None, counter)
+        # the same reaction with a BEP relation standing for its transition state (the barrier is a linear function
+        # of a descriptor of the reaction itself), both built by their constructors: every activation form, forward and
+        # reverse. The relation is an object of another kind than a species - a getter that asks it directly instead
+        # of going through the dimensionless form shows here. quick: the BEP class of the reaction's own module on
+        # an enthalpy descriptor; thorough: both classes, and an electronic-energy descriptor of the reverse reaction
+        own_bep = 'pmutt.omkm.reaction.BEP' if qual.startswith('pmutt.omkm') else 'pmutt.reaction.bep.BEP'
+        beps = [(own_bep, 'delta_H')]
+        if thorough:
+            beps += [(own_bep, 'rev_delta_E')] + [(b_, 'delta_H') for b_ in ('pmutt.reaction.bep.BEP',
+                                                                            'pmutt.omkm.reaction.BEP') if b_ != own_bep]
+        for bq, desc in beps:
+            rsb = [rxn_species(I, 'r%d' % i) for i in range(2)]
+            psb = [rxn_species(I, 'p%d' % i) for i in range(2)]
+            pressure_default(*(rsb + psb))
+            bep = I.construct(repo.cls(bq), [], {'slope': D.sym('slope'), 'intercept': D.sym('intercept'),
+                                                 'descriptor': desc, 'name': 'bep'}, name='bep')
+            if isinstance(bep, Raised):
+                raise Unsupported('BEP(...) raised %s' % bep.exc)
+            rxb = make_reaction(I, repo, qual, rsb, [D.sym('nu_r0'), D.sym('nu_r1')], psb,
+                                [D.sym('nu_p0'), D.sym('nu_p1')], ts=[bep], tstoich=[C(1)], name='rxb')
+            for wname, tname, q, owner, fn in ws:
+                if not wname.endswith('_act'):
+                    continue
+                for var in ([{'rev': False}, {'rev': True}] if 'rev' in params(fn)[0] else [{}]):
+                    avail = dict({'T': D.sym('T'), 'P': D.sym('P')}, **var)
+                    lab = '%s[transition state %s(%s)%s]' % (cname, 'omkm.BEP' if '.omkm.' in bq else 'BEP', desc,
+                                                             ''.join(',%s=%s' % kv for kv in sorted(var.items())))
+                    n_bepts += run_pair(run, I, rxb, lab, wname, tname, q, owner, fn, avail, ['kcal/mol/K'], None,
+                                        counter)
+        # an array of temperatures (the species answer element by element): element by element the same relation,
+        # each energy times its own temperature. Forms whose dimensionless twin is not defined for an array (a
+        # maximum over a list of numbers) have nothing to be compared with.
+        rxa, rsa, psa, tsa = reaction(I, repo, qual, name='rxa')
+        pressure_default(*(rsa + psa + tsa))
+        array_answers(*(rsa + psa + tsa))
+        arrT = ListV([D.sym('T0'), D.sym('T1')])
+        arrT.is_array = True
+        for wname, tname, q, owner, fn in ws:
+            names = params(fn)[0]
+            for var in ([{'state': 'reactants'}, {'state': 'TS'}] if 'state' in names else [{}]):
+                avail = dict({'T': arrT, 'P': D.sym('P')}, **var)
+                if not twin_evaluates(I, rxa, tname, avail):
+                    continue
+                lab = '%s[array T%s]' % (cname, ''.join(',%s=%s' % kv for kv in sorted(var.items())))
+                n_arr += run_pair(run, I, rxa, lab, wname, tname, q, owner, fn, avail, ['kJ/mol/K'], None, counter)
     run.floor('reactions built with user-specified constructor options', n_given, 5)
     run.floor('reaction wrappers with every option left out', n_left, 90)
     run.floor('numeric options shared by a reaction wrapper and its twin', n_numopts, 3)
     run.floor('activation forms of reactions without a transition state', n_nots, 8)
+    run.floor('activation forms of reactions whose transition state is a BEP relation', n_bepts, 48)
+    run.floor('reaction wrappers asked with an array of temperatures', n_arr, 92)
     # ---- (e) BEP --------------------------------------------------------------------
     I = Interp(repo)
     D = I.D
     rx = opaque_obj(I, 'rxn', {k: ('T', 'units', 'rev', 'state', 'P') for k in
                                ('get_delta_E', 'get_delta_H', 'get_H_state', 'get_E_state')})
-    for desc in ('delta_H', 'rev_delta_E', 'products_H'):
-        bep = Obj('bep', repo.cls('pmutt.reaction.bep.BEP'), attrs={'descriptor': desc})
-        owner, fn = repo.find_method(bep.ci, 'get_E_act')
-        run.fn(owner.qual + '.get_E_act', owner.qual + '.get_EoRT_act')
-        n_wrappers += 1 if desc == 'delta_H' else 0
-        for rev in (False, True):
-            avail = {'T': D.sym('T'), 'P': D.sym('P'), 'reaction': rx, 'rev': rev}
-            run_pair(run, I, bep, 'BEP[%s,rev=%s]' % (desc, rev), 'get_E_act', 'get_EoRT_act', 'E', owner, fn, avail,
-                     ['kcal/mol/K', 'kJ/mol/K', 'eV/K'], None, counter)
+    for bq, btag in (('pmutt.reaction.bep.BEP', 'BEP'), ('pmutt.omkm.reaction.BEP', 'omkm.BEP')):
+        for desc in ('delta_H', 'rev_delta_E', 'products_H'):
+            if btag != 'BEP' and desc != 'delta_H':
+                continue
+            bep = I.construct(repo.cls(bq), [], {'slope': D.sym('slope'), 'intercept': D.sym('intercept'),
+                                                 'descriptor': desc}, name='bep')
+            if isinstance(bep, Raised):
+                raise Unsupported('BEP(...) raised %s' % bep.exc)
+            got = [w_ for w_ in wrappers(I, bep) if w_[0] == 'get_E_act']
+            if not got:
+                raise AnchorError('get_E_act / get_EoRT_act of %s not found' % bq)
+            wname, tname, q, owner, fn = got[0]
+            run.fn(owner.qual + '.get_E_act', owner.qual + '.get_EoRT_act')
+            n_wrappers += 1 if desc == 'delta_H' else 0
+            for rev in (False, True):
+                avail = {'T': D.sym('T'), 'P': D.sym('P'), 'reaction': rx, 'rev': rev}
+                run_pair(run, I, bep, '%s[%s,rev=%s]' % (btag, desc, rev), wname, tname, q, owner, fn, avail,
+                         ['kcal/mol/K', 'kJ/mol/K', 'eV/K'], None, counter)
+    # every class of the package that offers a getter with units has been asked
+    missing = uncovered(repo, covered, ran)
+    if missing:
+        raise Unsupported('model class(es) with dimensional getters for which the rule has no constructor recipe: %s'
+                          % ', '.join(missing))
+    run.floor('model classes asked', len(covered), 27)
     run.floor('dimensional wrapper definitions', n_wrappers, 120)
     run.extra['wrapper_unit_pairs'] = counter[0]
 
@@ -782,10 +1089,67 @@ MUTANTS += [
                 "    try:\n        mol_weight = _memo[tuple(elements)]\n    except KeyError:\n"
                 "        mol_weight = _memo[tuple(elements)] = get_molecular_weight(elements)\n")]},
 ]
+_FACTORY = ("def _make_state_getter(twin_name):\n"
+            "    def getter(self, state, units, T=c.T0('K'), **kwargs):\n"
+            "        return getattr(self, twin_name)(state=state, T=T%s) * c.R(units)\n"
+            "    return getter\n\n\nclass Reaction(_pmuttBase):\n")
+_FACTORY_EDITS = lambda kw: [
+    (R_, "class Reaction(_pmuttBase):\n", _FACTORY % kw),
+    (R_, "    def get_S_state(self, state, units, **kwargs):", "    def _get_S_state(self, state, units, **kwargs):"),
+    (R_, "        return self.get_SoR_state(state=state, **kwargs) * c.R(units)\n",
+     "        return self.get_SoR_state(state=state, **kwargs) * c.R(units)\n\n"
+     "    get_S_state = _make_state_getter('get_SoR_state')\n")]
+REF_ = 'pmutt/empirical/references.py'
+MUTANTS += [
+    # ---- instances added after round 3 of the white-box review ----
+    {'name': 'Reaction.get_S_state made by a factory whose getter forgets **kwargs', 'expect': ('TWIN.dim', 'get_S_state'),
+     'edits': _FACTORY_EDITS('')},
+    {'name': 'SurfaceReaction.get_H_act asks a BEP transition state directly', 'expect': ('TWIN.dim', 'SurfaceReaction.get_H_act'),
+     'edits': [(O_, "        R_units = '{}/K'.format(units)\n        return self.get_HoRT_act(rev=rev, T=T, **kwargs)*T*c.R(R_units)",
+                "        for species in self.transition_state or []:\n            if isinstance(species, BEP):\n"
+                "                return species.get_E_act(units=units, reaction=self, rev=rev, T=T, **kwargs)\n"
+                "        R_units = '{}/K'.format(units)\n        return self.get_HoRT_act(rev=rev, T=T, **kwargs)*T*c.R(R_units)")]},
+    {'name': 'Nasa.get_Cp holds the value outside the fitted range', 'expect': ('TWIN.dim', 'Nasa.get_Cp'),
+     'edits': [(N_, "        R_adj = _get_R_adj(units=units, elements=self.elements)\n        return self.get_CpoR(T=T,",
+                "        R_adj = _get_R_adj(units=units, elements=self.elements)\n"
+                "        if _is_iterable(T):\n            T = np.array([min(max(T_i, self.T_low), self.T_high) for T_i in T])\n"
+                "        else:\n            T = min(max(T, self.T_low), self.T_high)\n        return self.get_CpoR(T=T,", 0, 2)]},
+    {'name': 'Nasa9.get_Cp answers 0 where no interval holds the temperature', 'expect': ('FWD.defined', 'Nasa9.get_Cp'),
+     'edits': [(N_, """        return self.get_CpoR(T=T,
+                             raise_error=raise_error,
+                             raise_warning=raise_warning,
+                             **kwargs) * R_adj""", """        try:
+            return self.get_CpoR(T=T, raise_error=raise_error, raise_warning=raise_warning, **kwargs) * R_adj
+        except ValueError:
+            return 0.""", 1, 2)]},
+    {'name': 'Reaction.get_delta_H hands out a python float', 'expect': ('FWD.raises', 'Reaction.get_delta_H'),
+     'edits': [(R_, "        return self.get_delta_HoRT(rev=rev, T=T, act=act, **kwargs) * T * c.R(\n            '{}/K'.format(units))",
+                "        return float(self.get_delta_HoRT(rev=rev, T=T, act=act, **kwargs) * T * c.R(\n            '{}/K'.format(units)))", 0, 2)]},
+    {'name': 'ConstantMode.get_H converts the stored value directly', 'expect': ('', 'ConstantMode.get_H'),
+     'edits': [(SM_, "        return self.G / c.R('eV/K') / T\n",
+                "        return self.G / c.R('eV/K') / T\n\n    def get_H(self, units, **kwargs):\n"
+                "        return c.convert_unit(self.H, initial='eV/molecule', final=units)\n")]},
+    {'name': 'Reference.get_H: stored value at the reference temperature', 'expect': ('TWIN.dim', 'Reference.get_H'),
+     'edits': [(REF_, "        self.T_ref = T_ref\n        self.HoRT_ref = HoRT_ref\n",
+                "        self.T_ref = T_ref\n        self.HoRT_ref = HoRT_ref\n\n    def get_H(self, units, T=None, **kwargs):\n"
+                "        return self.HoRT_ref * self.T_ref * c.R('{}/K'.format(units))\n")]},
+    {'name': 'get_molecular_weight ignores the counts', 'expect': ('REF.molweight', 'get_molecular_weight'),
+     'edits': [(P_, "        molecular_weight += c.atomic_weight[element] * coefficient",
+                "        molecular_weight += c.atomic_weight[element]")]},
+]
 EQUIV = [
     {'name': 'default pressure of SurfaceReaction.get_G_act spelled c.P0',
      'edits': [(O_, "    def get_G_act(self, units, T, P=1., rev=False, **kwargs):",
                 "    def get_G_act(self, units, T, P=c.P0('bar'), rev=False, **kwargs):")]},
     {'name': 'get_delta_Cv spelled with keyword order changed',
      'edits': [(R_, 'return self.get_delta_CvoR(rev=rev, act=act, **kwargs) * c.R(units)', 'return c.R(units) * self.get_delta_CvoR(act=act, rev=rev, **kwargs)')]},
+    # ---- refactorings that round 3 of the white-box review saw rejected ----
+    {'name': 'elements = None as a class attribute of _ModelBase, read as self.elements',
+     'edits': [(P_, "    Inherits from :class:`~pmutt._pmuttBase`\"\"\"\n    def __init__(self):\n        pass\n",
+                "    Inherits from :class:`~pmutt._pmuttBase`\"\"\"\n\n    elements = None\n\n    def __init__(self):\n        pass\n"),
+               (P_, "        R_adj = _get_R_adj(units=units,\n                           elements=getattr(self, 'elements', None))\n"
+                    "        return _force_pass_arguments(self.get_CvoR, **kwargs) * R_adj",
+                "        R_adj = _get_R_adj(units=units, elements=self.elements)\n"
+                "        return _force_pass_arguments(self.get_CvoR, **kwargs) * R_adj")]},
+    {'name': 'Reaction.get_S_state made by a factory, keywords handed on', 'edits': _FACTORY_EDITS(', **kwargs')},
 ]
